@@ -126,7 +126,7 @@ func (t *tr) ev(e ast.Expr) Term {
 		}
 	case *ast.StarExpr:
 		p := t.ev(x.X)
-		t.assert(neq(p, intLit(0)), "safety/nil", "", x.Pos(), "nil pointer dereference")
+		t.safety(neq(p, intLit(0)), "safety/nil", x.Pos(), "nil pointer dereference")
 		return t.loadPtr(p, x.Pos())
 	case *ast.BinaryExpr:
 		return t.evBinary(x, T)
@@ -151,7 +151,7 @@ func (t *tr) ev(e ast.Expr) Term {
 	case *ast.TypeAssertExpr:
 		v := t.ev(x.X)
 		to := t.typeOf(x.Type)
-		t.assert(t.hasDynType(v, to), "safety/assert", "", x.Pos(), "type assertion may fail")
+		t.safety(t.hasDynType(v, to), "safety/assert", x.Pos(), "type assertion may fail")
 		if isInterface(to) {
 			v.T = to
 			return v
@@ -287,7 +287,7 @@ func (t *tr) loadPath(base Term, path []int, pos token.Pos) Term {
 	cur := base
 	for _, idx := range path {
 		if _, _, isPtr := derefStruct(cur.T); isPtr {
-			t.assert(neq(cur, intLit(0)), "safety/nil", "", pos, "nil pointer dereference in field access")
+			t.safety(neq(cur, intLit(0)), "safety/nil", pos, "nil pointer dereference in field access")
 		}
 		r, ok := t.loadFieldIdx(t.cur.Env, cur, idx)
 		if !ok {
@@ -328,14 +328,14 @@ func (t *tr) evIndex(x *ast.IndexExpr) Term {
 		t.assume(t.typeInv(r, r.T, t.cur.Env))
 		return r
 	case *types.Pointer:
-		t.assert(neq(a, intLit(0)), "safety/nil", "", x.Pos(), "nil array pointer")
+		t.safety(neq(a, intLit(0)), "safety/nil", x.Pos(), "nil array pointer")
 	}
 	n, ok := t.lenOf(t.cur.Env, a)
 	if !ok {
 		t.errorf(x.Pos(), "cannot index %v", XT)
 		return Term{S: "0", Sort: SInt}
 	}
-	t.assert(and(le(intLit(0), i), lt(i, n)), "safety/index", "", x.Pos(), "index out of range")
+	t.safety(and(le(intLit(0), i), lt(i, n)), "safety/index", x.Pos(), "index out of range")
 	r, ok := t.elemAt(t.cur.Env, a, i)
 	if !ok {
 		t.errorf(x.Pos(), "cannot index %v", XT)
@@ -363,12 +363,12 @@ func (t *tr) evSliceExpr(x *ast.SliceExpr) Term {
 		}
 		if x.Max != nil {
 			mx = t.ev(x.Max)
-			t.assert(and(le(intLit(0), lo), le(lo, hi), le(hi, mx), le(mx, slCap(a))), "safety/slice", "", x.Pos(), "slice bounds out of range")
+			t.safety(and(le(intLit(0), lo), le(lo, hi), le(hi, mx), le(mx, slCap(a))), "safety/slice", x.Pos(), "slice bounds out of range")
 			r := mkSlice(slArr(a), add(slOff(a), lo), sub(hi, lo), sub(mx, lo))
 			r.T = XT
 			return r
 		}
-		t.assert(and(le(intLit(0), lo), le(lo, hi), le(hi, slCap(a))), "safety/slice", "", x.Pos(), "slice bounds out of range")
+		t.safety(and(le(intLit(0), lo), le(lo, hi), le(hi, slCap(a))), "safety/slice", x.Pos(), "slice bounds out of range")
 		r := mkSlice(slArr(a), add(slOff(a), lo), sub(hi, lo), sub(slCap(a), lo))
 		r.T = XT
 		return r
@@ -379,7 +379,7 @@ func (t *tr) evSliceExpr(x *ast.SliceExpr) Term {
 		} else {
 			hi = n
 		}
-		t.assert(and(le(intLit(0), lo), le(lo, hi), le(hi, n)), "safety/slice", "", x.Pos(), "string slice bounds out of range")
+		t.safety(and(le(intLit(0), lo), le(lo, hi), le(hi, n)), "safety/slice", x.Pos(), "string slice bounds out of range")
 		t.V.W.declFun("substr", []string{SStr, SInt, SInt}, SStr)
 		t.V.W.addAxiom("substr-len", "(forall ((s Str) (a Int) (b Int)) (! (=> (and (<= 0 a) (<= a b) (<= b (strlen s))) (= (strlen (substr s a b)) (- b a))) :pattern ((substr s a b))))")
 		t.V.W.addAxiom("substr-full", "(forall ((s Str)) (! (= (substr s 0 (strlen s)) s) :pattern ((substr s 0 (strlen s)))))")
